@@ -36,3 +36,10 @@ func (c *Cache) VerifSnapshot() (order []string, items []string, elems []string)
 func (t *TraefikOidc) VerifStopMetadataCleanup() {
 	t.metadataCache.Close()
 }
+
+// VerifHousekeeping runs one cycle of the instance's periodic maintenance: the body of the one-minute ticker loop in
+// startTokenCleanup (the regenerated fact housekeepingCalls checks that these are the calls made there).
+func (t *TraefikOidc) VerifHousekeeping() {
+	t.tokenCache.Cleanup()
+	t.jwkCache.Cleanup()
+}
